@@ -214,8 +214,12 @@ func (f *forwarder) serve(c net.Conn, p carrierPlan, idx int) {
 	defer func() {
 		// any carrier ending restarts the clock: a stall is only judged over a
 		// period in which one and the same carrier set was continuously usable
-		atomic.AddInt32(&f.liveConns, -1)
-		atomic.StoreInt64(&f.liveSince, 0)
+		if atomic.AddInt32(&f.liveConns, -1) > 0 {
+			// another carrier of the session is still forwarding: the period starts anew with it
+			atomic.StoreInt64(&f.liveSince, time.Now().UnixNano())
+		} else {
+			atomic.StoreInt64(&f.liveSince, 0)
+		}
 	}()
 	go pump(s, c, up, &f.bytesUp, "up")
 	pump(c, s, down, &f.bytesDown, "down")
@@ -395,6 +399,16 @@ func (s *e2eServer) handle(conn net.Conn) {
 		}
 	}
 	<-wdone
+	// the address of an accepted connection is settled when the session is
+	// established; whatever carriers came later, it reads the same at the end
+	ra2 := ""
+	if a := conn.RemoteAddr(); a != nil {
+		ra2 = a.String()
+	}
+	s.res.Obs("remote_addr_read_again_at_end_of_session", 1)
+	if ra2 != ra {
+		s.res.Violate("c18:remote-addr-changed-after-accept", fmt.Sprintf("session %x: RemoteAddr() was %q when the connection was accepted and %q at the end of the session", tag, ra, ra2), map[string]interface{}{"case": fmt.Sprintf("sess/%x", tag), "plan": plan})
+	}
 	plan.mu.Lock()
 	if rerr != nil && rerr != io.EOF && !plan.BridgeCloses {
 		plan.serverErr = rerr.Error()
@@ -453,15 +467,32 @@ type doubleConn struct {
 	n      uint32
 	closed chan struct{}
 	once   sync.Once
+	// survive: when one of the two carriers ends, the session goes on over the
+	// other one alone (an older carrier that outlives a newer one)
+	survive bool
+	deadA   int32
+	deadB   int32
 }
 
-func newDoubleConn(a, b net.PacketConn) *doubleConn {
-	d := &doubleConn{a: a, b: b, rq: make(chan []byte, 256), errc: make(chan error, 2), closed: make(chan struct{})}
+func newDoubleConn(a, b net.PacketConn) *doubleConn { return newDoubleConnOpt(a, b, false) }
+
+func newDoubleConnOpt(a, b net.PacketConn, survive bool) *doubleConn {
+	d := &doubleConn{a: a, b: b, rq: make(chan []byte, 256), errc: make(chan error, 2), closed: make(chan struct{}), survive: survive}
 	rd := func(c net.PacketConn) {
 		for {
 			buf := make([]byte, 2048)
 			n, _, err := c.ReadFrom(buf)
 			if err != nil {
+				if d.survive {
+					mine, other := &d.deadA, &d.deadB
+					if c == b {
+						mine, other = &d.deadB, &d.deadA
+					}
+					atomic.StoreInt32(mine, 1)
+					if atomic.LoadInt32(other) == 0 {
+						return // the other carrier carries on
+					}
+				}
 				d.errc <- err
 				return
 			}
@@ -487,6 +518,14 @@ func (d *doubleConn) ReadFrom(p []byte) (int, net.Addr, error) {
 	}
 }
 func (d *doubleConn) WriteTo(p []byte, addr net.Addr) (int, error) {
+	if d.survive {
+		if atomic.LoadInt32(&d.deadA) == 1 {
+			return d.b.WriteTo(p, addr)
+		}
+		if atomic.LoadInt32(&d.deadB) == 1 {
+			return d.a.WriteTo(p, addr)
+		}
+	}
 	if atomic.AddUint32(&d.n, 1)%2 == 0 {
 		return d.a.WriteTo(p, addr)
 	}
@@ -602,14 +641,17 @@ func (m *modelClient) dial(ctx context.Context) (net.PacketConn, error) {
 		m.plan.mu.Lock()
 		m.plan.carriersUsed++
 		m.plan.mu.Unlock()
-		if p.Kind == "double" {
+		if p.Kind == "double" || p.Kind == "double-older-survives" {
 			c2, err := m.openCarrier(ctx, m.ipFor(i+1))
 			if err == nil {
 				m.res.Obs("double_carriers", 1)
 				m.plan.mu.Lock()
 				m.plan.carriersUsed++
 				m.plan.mu.Unlock()
-				return newDoubleConn(c1, c2), nil
+				if p.Kind == "double-older-survives" {
+					m.res.Obs("double_carriers_whose_older_one_outlives_the_newer", 1)
+				}
+				return newDoubleConnOpt(c1, c2, p.Kind == "double-older-survives"), nil
 			}
 		}
 		return c1, nil
